@@ -609,13 +609,304 @@ def translate_module(mod, src_root):
     return "".join(out), report
 
 
+
+
+# ---------------------------------------------------------------------------------------------------------------
+# SKELETON mode: the control flow of an object-heavy function with every call left uninterpreted (Gen/PySkel.v)
+# ---------------------------------------------------------------------------------------------------------------
+INERT_CALLS = ("_verif.emit", "LOGGER.info", "LOGGER.debug", "LOGGER.warning")
+
+
+class Skel:
+    """translate the prefix of a function (up to the first assignment to `stop_at`) into the monad of Gen/PySkel.v;
+    values are opaque (type V) except loop indices and integer literals (Z)"""
+
+    def __init__(self, node, stop_at, result_names):
+        self.node, self.stop_at, self.result_names = node, stop_at, result_names
+        self.tmp = 0
+
+    def fresh(self):
+        self.tmp += 1
+        return "t%d_" % self.tmp
+
+    @staticmethod
+    def wrap(binds, code):
+        for pat, m in reversed(binds):
+            code = "%s <<- %s ;;\n  %s" % (pat, m, code)
+        return code
+
+    def toV(self, c, t):
+        if t == "V":
+            return c
+        if t == "Z":
+            return "(vint %s)" % c
+        raise Unsupported("value of type %s passed to a call" % t)
+
+    def expr(self, e, env):
+        if isinstance(e, ast.Constant):
+            if e.value is None:
+                return [], "vnone", "V"
+            if isinstance(e.value, int) and not isinstance(e.value, bool):
+                return [], "(%d)" % e.value, "Z"
+            raise Unsupported("constant %r" % (e.value,))
+        if isinstance(e, ast.Name):
+            if e.id not in env:
+                raise Unsupported("unknown name %s" % e.id)
+            return [], cname(e.id), env[e.id]
+        if isinstance(e, ast.Attribute):
+            b, c, t = self.expr(e.value, env)
+            if t != "V":
+                raise Unsupported("attribute of a %s" % t)
+            return b, '(getattr %s "%s")' % (c, e.attr), "V"
+        if isinstance(e, ast.Subscript) and isinstance(e.slice, ast.Constant) and isinstance(e.slice.value, int):
+            b, c, t = self.expr(e.value, env)
+            if t != "V":
+                raise Unsupported("subscript of a %s" % t)
+            return b, '(getattr %s "[%d]")' % (c, e.slice.value), "V"
+        if isinstance(e, ast.Compare):
+            if len(e.ops) != 1:
+                raise Unsupported("chained comparison")
+            b1, c1, t1 = self.expr(e.left, env)
+            b2, c2, t2 = self.expr(e.comparators[0], env)
+            op = type(e.ops[0])
+            if t1 == "V" and t2 == "V":
+                if op is ast.Eq:
+                    return b1 + b2, "(veq %s %s)" % (c1, c2), "bool"
+                if op is ast.NotEq:
+                    return b1 + b2, "(negb (veq %s %s))" % (c1, c2), "bool"
+                raise Unsupported("ordering of opaque values")
+            binds = b1 + b2
+            if t1 == "V":
+                v = self.fresh()
+                binds.append((v, "need_int as_int %s" % c1))
+                c1, t1 = v, "Z"
+            if t2 == "V":
+                v = self.fresh()
+                binds.append((v, "need_int as_int %s" % c2))
+                c2, t2 = v, "Z"
+            tbl = {ast.Lt: "(%s <? %s)", ast.LtE: "(%s <=? %s)", ast.Gt: "(%s >? %s)", ast.GtE: "(%s >=? %s)",
+                   ast.Eq: "(%s =? %s)", ast.NotEq: "(negb (%s =? %s))"}
+            if op not in tbl or t1 != "Z" or t2 != "Z":
+                raise Unsupported("comparison %s" % ast.unparse(e))
+            return binds, tbl[op] % (c1, c2), "bool"
+        if isinstance(e, ast.Call):
+            fn = ast.unparse(e.func)
+            if e.keywords:
+                raise Unsupported("keyword arguments in call of %s" % fn)
+            args = [self.expr(a, env) for a in e.args]
+            binds = sum((a[0] for a in args), [])
+            argv = [self.toV(a[1], a[2]) for a in args]
+            if isinstance(e.func, ast.Attribute):
+                root = e.func
+                while isinstance(root, ast.Attribute):
+                    root = root.value
+                if isinstance(root, ast.Name) and root.id in env:
+                    # a method of a local object:  obj.path.method(args)
+                    bo, co, to = self.expr(e.func.value, env)
+                    if to != "V":
+                        raise Unsupported("method of a %s" % to)
+                    binds = bo + binds
+                    v = self.fresh()
+                    return binds + [(v, 'call oracle "method:%s" [%s]' % (e.func.attr, "; ".join([co] + argv)))], v, "V"
+            v = self.fresh()
+            return binds + [(v, 'call oracle "%s" [%s]' % (fn, "; ".join(argv)))], v, "V"
+        raise Unsupported("expression %s" % ast.unparse(e))
+
+    def assigned(self, stmts):
+        out = []
+
+        def add(n):
+            if n not in out:
+                out.append(n)
+        for s in stmts:
+            if isinstance(s, ast.Assign):
+                for t in s.targets:
+                    if isinstance(t, ast.Name):
+                        add(t.id)
+                    elif isinstance(t, ast.Attribute) and isinstance(t.value, ast.Name):
+                        add(t.value.id)
+                    else:
+                        raise Unsupported("assignment target %s" % ast.unparse(t))
+            elif isinstance(s, ast.If):
+                for n in self.assigned(s.body) + self.assigned(s.orelse):
+                    add(n)
+            elif isinstance(s, ast.For):
+                for n in self.assigned(s.body):
+                    add(n)
+            elif isinstance(s, ast.Try):
+                for n in self.assigned(s.body):
+                    add(n)
+        return out
+
+    @staticmethod
+    def tup(names):
+        if not names:
+            return "tt", "_"
+        if len(names) == 1:
+            return cname(names[0]), cname(names[0])
+        t = "(" + ", ".join(cname(n) for n in names) + ")"
+        return t, "'" + t
+
+    def ends_with_break(self, stmts):
+        return bool(stmts) and isinstance(stmts[-1], ast.Break)
+
+    def block(self, stmts, env, k, brk=None):
+        if not stmts:
+            return k(env)
+        s, rest = stmts[0], stmts[1:]
+        nxt = lambda e2: self.block(rest, e2, k, brk)   # noqa: E731
+        if isinstance(s, ast.Assign) and len(s.targets) == 1 and isinstance(s.targets[0], ast.Name) and s.targets[0].id == self.stop_at:
+            # the cut: everything from here on is result assembly
+            for n in self.result_names:
+                if n not in env:
+                    raise Unsupported("%s is not bound at the cut" % n)
+            return "mret %s" % self.tup(self.result_names)[0]
+        if isinstance(s, ast.Expr) and isinstance(s.value, ast.Constant) and isinstance(s.value.value, str):
+            return nxt(env)
+        if isinstance(s, ast.Expr) and isinstance(s.value, ast.Call):
+            if ast.unparse(s.value.func) in INERT_CALLS:
+                return nxt(env)
+            b, c, t = self.expr(s.value, env)
+            return self.wrap(b, nxt(env))
+        if isinstance(s, ast.Break):
+            if brk is None:
+                raise Unsupported("break outside a loop")
+            return brk(env)
+        if isinstance(s, ast.Raise) and s.exc is None:
+            raise Unsupported("bare raise outside an except clause")
+        if isinstance(s, ast.Assert):
+            b, c, t = self.expr(s.test, env)
+            if t != "bool":
+                raise Unsupported("assert on %s" % t)
+            return self.wrap(b, 'if %s then\n  %s\n  else mraise "AssertionError"%%string' % (c, nxt(env)))
+        if isinstance(s, ast.Assign):
+            if len(s.targets) != 1:
+                raise Unsupported("multiple assignment")
+            tgt = s.targets[0]
+            b, c, t = self.expr(s.value, env)
+            if isinstance(tgt, ast.Name):
+                env2 = dict(env)
+                env2[tgt.id] = t
+                return self.wrap(b, "let %s := %s in\n  %s" % (cname(tgt.id), c, nxt(env2)))
+            if isinstance(tgt, ast.Attribute) and isinstance(tgt.value, ast.Name) and env.get(tgt.value.id) == "V":
+                o = cname(tgt.value.id)
+                return self.wrap(b, '%s <<- call oracle "setattr:%s" [%s; %s] ;;\n  %s' % (o, tgt.attr, o, self.toV(c, t), nxt(env)))
+            raise Unsupported("assignment %s" % ast.unparse(s))
+        if isinstance(s, ast.If):
+            b, c, t = self.expr(s.test, env)
+            if t != "bool":
+                raise Unsupported("condition of type %s" % t)
+            if self.ends_with_break(s.body) and not s.orelse:
+                return self.wrap(b, "if %s then\n  %s\n  else\n  %s" % (c, self.block(s.body, env, self.no_fall, brk), nxt(env)))
+            for n in ast.walk(s):
+                if isinstance(n, ast.Break):
+                    raise Unsupported("break in this position")
+            names = self.assigned(s.body + s.orelse)
+            for n in names:
+                if n not in env:
+                    raise Unsupported("%s is first bound inside an if" % n)
+            t_, p_ = self.tup(names)
+            kk = lambda e2: "mret %s" % t_   # noqa: E731
+            return self.wrap(b, "%s <<- (if %s then\n  %s\n  else\n  %s) ;;\n  %s" % (
+                p_, c, self.block(s.body, env, kk, None), self.block(s.orelse, env, kk, None), nxt(env)))
+        if isinstance(s, ast.For):
+            if s.orelse or not (isinstance(s.iter, ast.Call) and ast.unparse(s.iter.func) == "range" and len(s.iter.args) == 1 and not s.iter.keywords):
+                raise Unsupported("loop form")
+            if not isinstance(s.target, ast.Name):
+                raise Unsupported("loop target")
+            b, c, t = self.expr(s.iter.args[0], env)
+            if t == "V":
+                v = self.fresh()
+                b = b + [(v, "need_int as_int %s" % c)]
+                c = v
+            state = [n for n in self.assigned(s.body) if n in env]
+            t_, p_ = self.tup(state)
+            env_b = dict(env)
+            env_b[s.target.id] = "Z"
+            body = self.block(s.body, env_b, lambda e2: "mret (%s, false)" % t_, lambda e2: "mret (%s, true)" % t_)
+            return self.wrap(b, "%s <<- for_break (fun %s %s =>\n  %s) (zrange %s) %s ;;\n  %s" % (
+                p_, p_ if p_ != "_" else "_", cname(s.target.id), body, c, t_, nxt(env)))
+        if isinstance(s, ast.Try):
+            if s.orelse or s.finalbody or len(s.handlers) != 1:
+                raise Unsupported("try form")
+            h = s.handlers[0]
+            if h.type is None or ast.unparse(h.type) != "BaseException" or h.name:
+                raise Unsupported("except clause other than `except BaseException:`")
+            if not (h.body and isinstance(h.body[-1], ast.Raise) and h.body[-1].exc is None):
+                raise Unsupported("except clause that does not re-raise")
+            state = [n for n in self.assigned(s.body) if n in env]
+            t_, p_ = self.tup(state)
+            body = self.block(s.body, env, lambda e2: "mret %s" % t_, None)
+            handler = self.block(h.body[:-1], env, lambda e2: "mret tt", None)
+            return "%s <<- try_reraise (\n  %s) (\n  %s) ;;\n  %s" % (p_, body, handler, nxt(env))
+        raise Unsupported("statement %s" % type(s).__name__)
+
+    @staticmethod
+    def no_fall(env):
+        raise Unsupported("internal: fall-through after break")
+
+    def translate(self):
+        f = self.node
+        a = f.args
+        if a.vararg or a.kwarg or a.kwonlyargs or a.posonlyargs or a.defaults:
+            raise Unsupported("argument form")
+        env = {arg.arg: "V" for arg in a.args}
+
+        def kend(env2):
+            raise Unsupported("the function ends before the cut (no assignment to %s)" % self.stop_at)
+        body = self.block(f.body, env, kend, None)
+        params = " ".join("(%s : V)" % cname(arg.arg) for arg in a.args)
+        rt = "V" if len(self.result_names) == 1 else "(" + " * ".join("V" for _ in self.result_names) + ")"
+        return "Definition %s %s : M V %s :=\n  %s." % (fname(f.name), params, rt, body)
+
+
+SKEL_HEADER = """(* GENERATED by vcheck/py2coq.py (skeleton mode) from %(src)s - do not edit.
+   Regenerated from /repo's working tree on every run.  Semantic table: Gen/PySkel.v.
+   The function is translated up to (not including) the first assignment to `%(stop)s`: what follows is result assembly. *)
+From Coq Require Import String.
+From Coq Require Import ZArith List Bool.
+From Ticc Require Import Gen.PyRt Gen.PySkel.
+Import ListNotations.
+Local Open Scope Z_scope.
+
+Section Gen.
+  Variable V : Type.
+  Variable vnone : V.
+  Variable vint : Z -> V.
+  Variable as_int : V -> option Z.
+  Variable veq : V -> V -> bool.
+  Variable getattr : V -> string -> V.
+  Variable oracle : list (event V) -> string -> list V -> res V.
+
+"""
+
+SKEL_TARGETS = {"main_loop": ("main_loop.py", "fit_stacked_data", "bayesian_ic", ["current_model_state"])}
+
+
+def translate_skeleton(mod, src_root):
+    rel, name, stop_at, results = SKEL_TARGETS[mod]
+    tree = ast.parse(open(os.path.join(src_root, rel)).read())
+    funcs = {n.name: n for n in tree.body if isinstance(n, ast.FunctionDef)}
+    out = [SKEL_HEADER % {"src": "src/fast_ticc/" + rel, "stop": stop_at}]
+    if name not in funcs:
+        out.append("  (* %s: NOT TRANSLATED - missing from the source *)\n\nEnd Gen.\n" % name)
+        return "".join(out), {name: "missing from the source"}
+    try:
+        text = Skel(funcs[name], stop_at, results).translate()
+        out.append("  (* %s, lines %d-%d (prefix) *)\n  %s\n\nEnd Gen.\n" % (name, funcs[name].lineno, funcs[name].end_lineno, text.replace("\n", "\n  ")))
+        return "".join(out), {name: "ok"}
+    except Unsupported as e:
+        out.append("  (* %s: NOT TRANSLATED - %s *)\n\nEnd Gen.\n" % (name, str(e).replace("*)", "* )")))
+        return "".join(out), {name: "unsupported: %s" % e}
+
+
 def regenerate(src_root, out_dir):
     """write G_<module>.v files (only when the text changed, so make stays incremental); return the report"""
     os.makedirs(out_dir, exist_ok=True)
     rep = {}
-    for mod in TARGETS:
+    for mod in list(TARGETS) + list(SKEL_TARGETS):
         try:
-            text, r = translate_module(mod, src_root)
+            text, r = translate_module(mod, src_root) if mod in TARGETS else translate_skeleton(mod, src_root)
         except (OSError, SyntaxError) as e:
             text, r = "(* GENERATED: source unreadable: %s *)\n" % e, {"*": "source unreadable: %s" % e}
         rep[mod] = r
